@@ -244,6 +244,9 @@ pub fn check(p: &Prog, rep: &mut Report) {
         }
     }
     rep.nontrivial.insert(hash64(&p.src));
+    if rep.thorough() && hash64(&p.key) % 4 == 0 || !rep.thorough() && hash64(&p.key) % 3 == 0 {
+        option_leg(rep, &p.key, &p.src, &cfg, &text, "bind group layouts / pipeline layout", &|kind, name| (kind == "mod" && name == "bind_groups") || (kind == "fn" && name == "create_pipeline_layout"));
+    }
     let limits = wgpucheck::permissive_limits();
     let mut outcome = String::new();
     for (gi, l) in layouts.iter().enumerate() {
@@ -412,7 +415,9 @@ pub fn run(tier: &str) -> i32 {
     {
         let n0 = progs.len();
         for i in 0..n0 {
-            if rep.thorough() || hash64(&progs[i].key) % 6 == 2 {
+            // thorough: every program except the call-graph ones (the bulk of the space), of which every 8th
+            let graph = progs[i].key.starts_with("graph|");
+            if (rep.thorough() && (!graph || hash64(&progs[i].key) % 8 == 2)) || (!rep.thorough() && hash64(&progs[i].key) % 6 == 2) {
                 for style in ["camel", "upper"] {
                     if let Some((src, _)) = restyle_globals(&progs[i].src, style) {
                         progs.push(Prog { key: format!("{}|names={style}", progs[i].key), src, groups: progs[i].groups });
@@ -424,7 +429,8 @@ pub fn run(tier: &str) -> i32 {
     // module-scope declaration order is not significant: reversed / functions-first variants (every 4th in quick)
     let n0 = progs.len();
     for i in 0..n0 {
-        if rep.thorough() || hash64(&progs[i].key) % 4 == 1 {
+        let graph = progs[i].key.starts_with("graph|");
+        if (rep.thorough() && (!graph || hash64(&progs[i].key) % 8 == 1)) || (!rep.thorough() && hash64(&progs[i].key) % 4 == 1) {
             for how in ["reverse", "entries-first"] {
                 if let Some(src) = reorder_decls(&progs[i].src, how) {
                     progs.push(Prog { key: format!("{}|decl-order={how}", progs[i].key), src, groups: progs[i].groups });
